@@ -70,6 +70,15 @@ o P2 240205#B5 under h4 key::three
 """,
 }
 
+# a long journal page (well over 8 KiB, line numbers with three digits): explored in a small
+# directory of its own, so that the main search does not pay for it in every state
+LONG = {
+    "long.zo": "# LONG page\n\n" + "".join(
+        f"- 2406{1 + k // 60:02d}#{'0123456789ABCDEFGHJKLMNPRTUVWXYZ'[(k // 30) % 30]}{'0123456789ABCDEFGHJKLMNPRTUVWXYZ'[k % 30]} "
+        f"journal entry number {k} with some more words to make the line long enough\n" for k in range(140)),
+}
+LONG_EVENTS = ["edit_long_tail", "edit_body_a", "add_note_a", "R", "Rp", "D"]
+
 EVENTS = ["edit_body_a", "kind_a", "add_note_a", "del_note_a", "move_note", "add_page_c",
           "del_page_b", "rename_b_d", "restore_b", "title_tags_a", "header_b", "drop_last_tag", "del_note_t", "break_z", "fix_z",
           "R", "Rp", "D"]
@@ -79,7 +88,7 @@ QUERIES = [
     "S note O alpha G none", "S note W #shared O alpha G none", "S note W o O alpha G none",
     "S note W #only_here O alpha G none", "S note W key:* O alpha G none", "S note W [[a]] O alpha G none",
     "S note W [[sub/b]] O alpha G none", "S # O alpha", "S prop O alpha", "S file O alpha",
-    "S count(note)", "S note W f=s* O alpha G none", "S note W st=active O alpha G none", "S prop:st O alpha",
+    "S count(note)", "S note W f=s* O alpha G none", "S note W 'edited' O alpha G none", "S note W st=active O alpha G none", "S prop:st O alpha",
 ]
 
 
@@ -169,6 +178,16 @@ def apply_edit(zd: Path, ev: str, guards: dict) -> bool:
             b.parent.mkdir(parents=True, exist_ok=True)
             b.write_text(guards.get("b_text") or BASE["sub/b.zo"])
         return True
+    if ev == "edit_long_tail":
+        # an edit far beyond the first 8 KiB of a long page (its beginning stays byte-identical)
+        lp = zd / "long.zo"
+        t = lp.read_text()
+        for k in (0, 1):
+            old = "journal entry number 139" + (" edited" * k) + " with"
+            if old in t and ("journal entry number 139" + " edited" * (k + 1) + " with") not in t:
+                lp.write_text(t.replace(old, "journal entry number 139" + " edited" * (k + 1) + " with"))
+                return True
+        return False
     if ev == "break_z":
         zp = zd / "zz.zo"
         if guards.get("z_broken") or guards.get("z_was_broken"):
@@ -401,6 +420,16 @@ def make_inits(day: dt.date):
     return inits
 
 
+def make_long_init(day: dt.date):
+    lz = Z.make_zdir({"a.zo": BASE["a.zo"], "sub/b.zo": BASE["sub/b.zo"], **LONG}, "c06l")
+    r = Z.db_create(lz, day)
+    if not Z.cli_ok(r):
+        raise H.HarnessError("long-page db create failed: " + r.err[-500:])
+    sl = B.St(path=str(lz), day=day, hist=[], guards={}, extra={"init": "long-page"})
+    sl.key = H.digest([D.state_digest(lz, day), []])
+    return sl
+
+
 def run(ctx: F.Ctx):
     day = H.rotate(_DAYS, ctx.seed)[0]
     H.freeze(day)
@@ -417,7 +446,8 @@ def run(ctx: F.Ctx):
             "BFS from 6 initial states (indexed four-page directory; same with a ZID-less note "
             "pending; same after an earlier stamped edit; same after a page was deleted and the "
             "index followed; same after a new page was added, the last page broken and a plain "
-            "reindex refused; same after one run that wrote a ZID back, dropped a vanished page and took in a new page) over 18 events: edit a body, change a "
+            "reindex refused; same after one run that wrote a ZID back, dropped a vanished page and took in a new page), "
+            "plus a small directory with a 140-note page of 12 KiB whose LAST note is edited (events: that edit, a body edit, a new note, R, Rp, D), over 18 events: edit a body, change a "
             "todo's kind, add a ZID-less note, delete a note, move a note between pages whose header "
             "blocks give one property different values, add a page, "
             "delete a page, rename a page, bring the vanished page back byte-identical, edit title-line tags, edit a section header, drop the "
@@ -434,6 +464,9 @@ def run(ctx: F.Ctx):
                         "states reached by a path-restricted reindex are judged at the next plain reindex, as the statement says"],
         "exhaustive": True,
     }
+    # the long page, in a directory of its own
+    sl = make_long_init(day)
+    total.merge(B.search(ctx, [sl], LONG_EVENTS, step, depth, max_states=None if ctx.quick else 30000))
     total.samples = total.samples[:4]
     return total, meta
 
@@ -442,7 +475,7 @@ def replay(case, ctx: F.Ctx) -> F.Outcome:
     """Re-run one history from its initial state without the explorer."""
     day = H.rotate(_DAYS, ctx.seed)[0]
     H.freeze(day)
-    inits = make_inits(day)
+    inits = make_inits(day) if case["init"] != "long-page" else [make_long_init(day)]
     try:
         st = next(s for s in inits if s.extra["init"] == case["init"])
         out = F.Outcome()
